@@ -49,6 +49,11 @@ def check(ctx):
     _r2(ctx)
     _r3(ctx)
     _r4(ctx)
+    # the pieces of a piecewise fit (same reactants and products, adjacent windows) are different reactions to the default
+    # duplicate search, which compares the reactions themselves -- window included -- not a coarser key (shared with C15.R3)
+    from .c15 import _r3 as dup_rule
+    ctx.absorb(lambda sub: dup_rule(sub, package(sub.tree)), "R5", only=lambda o: o.key in ("mode string/default", "check_list") or o.outcome == "VIOLATION" and o.key.startswith("mode"))
+    ctx.floor("R5", "default-mode comparison", len([o for o in ctx.obs if o.rule == "R5"]), 1)
 
 
 def _r1(ctx):
@@ -428,6 +433,7 @@ FEX = "naunet/templates/cvode/src/naunet_fex.cpp.j2"
 JAC = "naunet/templates/cvode/src/naunet_jac.cpp.j2"
 RATES = "naunet/templates/cvode/src/naunet_rates.cpp.j2"
 MUTANTS = [
+    {"name": "default-duplicates-by-hash", "file": "naunet/network.py", "old": "        check_list = reactions\n", "new": "        check_list = [hash(r) for r in reactions]\n", "rules": ["R5"]},
     {"name": "lower-strict", "file": T, "old": 'f"Tgas>={r.temp_min}"', "new": 'f"Tgas>{r.temp_min}"', "rules": ["R1"]},
     {"name": "upper-inclusive", "file": T, "old": 'f"Tgas<{r.temp_max}"', "new": 'f"Tgas<={r.temp_max}"', "rules": ["R1"]},
     {"name": "presence-ge-zero", "file": T, "old": "if r.temp_max > 0 else", "new": "if r.temp_max >= 0 else", "rules": ["R1"]},
